@@ -105,6 +105,8 @@ package interpreter
 //@ requires [arity] arityOf(recv) == -1 || len(arguments) == arityOf(recv)
 //@ ensures [canon] result1 == nil ==> canon(result0)
 //@ ensures [err] result1 == nil || isErr(result1)
+//@ ensures [flagmono] old(utils.HadRuntimeError) ==> utils.HadRuntimeError
+//@ ensures [noparse] utils.HadError == old(utils.HadError)
 
 // ---- math built-ins (C17) ---------------------------------------------
 
@@ -190,7 +192,7 @@ package interpreter
 //@ ensures [prefix] result1 == nil ==> forall(k, 0, len(arr(arguments[0])), elem(arr(result0), k) == old(elem(arr(arguments[0]), k)))
 //@ ensures [suffix] result1 == nil ==> forall(k, 0, len(arguments)-1, elem(arr(result0), len(arr(arguments[0]))+k) == old(arguments[k+1]))
 //@ ensures [frame] forall(r, Int, old(arrAllocated(r)) ==> arrRow(r) == old(arrRow(r)))
-//@ ensures [fresh] result1 == nil ==> !old(arrAllocated(ref(arr(result0))))
+//@ ensures [fresh] result1 == nil ==> !old(arrAllocated(now(ref(arr(result0)))))
 
 //@ func (n NativeRemoveFn) Call [C11]
 //@ ensures [count] len(arguments) != 2 ==> result1 != nil
@@ -201,7 +203,7 @@ package interpreter
 //@ ensures [prefix] result1 == nil && isNum(arguments[1]) ==> forall(k, 0, int(intOf(num(arguments[1]))), elem(arr(result0), k) == old(elem(arr(arguments[0]), k)))
 //@ ensures [suffix] result1 == nil && isNum(arguments[1]) ==> forall(k, int(intOf(num(arguments[1]))), len(arr(arguments[0]))-1, elem(arr(result0), k) == old(elem(arr(arguments[0]), k+1)))
 //@ ensures [frame] forall(r, Int, old(arrAllocated(r)) ==> arrRow(r) == old(arrRow(r)))
-//@ ensures [fresh] result1 == nil ==> !old(arrAllocated(ref(arr(result0))))
+//@ ensures [fresh] result1 == nil ==> !old(arrAllocated(now(ref(arr(result0)))))
 
 // ---- object built-ins (C12) -------------------------------------------
 
@@ -213,3 +215,51 @@ package interpreter
 //@ ensures [errframe] result1 != nil ==> forall(r, Int, objDom(r) == old(objDom(r)))
 //@ ensures [others] forall(r, Int, len(arguments) == 2 && r != obj(arguments[0]) ==> objDom(r) == old(objDom(r)))
 //@ ensures [values] forall(r, Int, objVals(r) == old(objVals(r)))
+
+// ---- evaluator --------------------------------------------------------
+
+//@ cellinv H_interpreter_Function_Declaration p: p != nil
+//@ cellinv H_interpreter_Function_Closure p: p != nil
+//@ cellinv H_interpreter_Interpreter_globals p: p != nil
+
+//@ func NewFunction [C04,C07]
+//@ requires [args] declaration != nil && closure != nil
+//@ ensures [fresh] fresh(result) && result.Declaration == declaration && result.Closure == closure
+
+//@ func (i *Interpreter) eval [C07,C16,C06,C04,C05]
+//@ requires [interp] i != nil
+//@ requires [env] env != nil
+//@ requires [node] nodeOK(expr)
+//@ ensures [signal] result1 != nil
+//@ ensures [sigtype] 0 <= result1.Type && result1.Type <= 3
+//@ ensures [canon] canon(result0)
+//@ ensures [flagmono] old(utils.HadRuntimeError) ==> utils.HadRuntimeError
+//@ ensures [noparse] utils.HadError == old(utils.HadError)
+//@ loop 1:
+//@   invariant [flagmono] old(utils.HadRuntimeError) ==> utils.HadRuntimeError
+//@ loop 2:
+//@   invariant [flagmono] old(utils.HadRuntimeError) ==> utils.HadRuntimeError
+//@ loop 3:
+//@   invariant [flagmono] old(utils.HadRuntimeError) ==> utils.HadRuntimeError
+//@   invariant [nargs] len(arguments) == iter
+//@ loop 4:
+//@   invariant [flagmono] old(utils.HadRuntimeError) ==> utils.HadRuntimeError
+//@ loop 5:
+//@   invariant [flagmono] old(utils.HadRuntimeError) ==> utils.HadRuntimeError
+//@ loop 6:
+//@   invariant [flagmono] old(utils.HadRuntimeError) ==> utils.HadRuntimeError
+//@ loop 7:
+//@   invariant [flagmono] old(utils.HadRuntimeError) ==> utils.HadRuntimeError
+
+//@ func (f *Function) Call [C04,C07]
+//@ requires [recv] f != nil
+//@ requires [interp] i != nil
+//@ loop 1:
+//@   invariant [flagmono] old(utils.HadRuntimeError) ==> utils.HadRuntimeError
+//@ loop 2:
+//@   invariant [flagmono] old(utils.HadRuntimeError) ==> utils.HadRuntimeError
+
+//@ func (i *Interpreter) Interpret [C05,C06,C07]
+//@ requires [interp] i != nil
+//@ loop 1:
+//@   invariant [flagmono] old(utils.HadRuntimeError) ==> utils.HadRuntimeError
